@@ -176,6 +176,70 @@ fn walk_node(d: &ColumnDump, addr: u64, depth: u32, w: &mut TreeWalk) {
     }
 }
 
+/// Nested shape of the btree below `addr`: {"s": [keys as given by `rank`], "c": [children]} (leaf: "c" empty).
+/// None when a node cannot be decoded.
+pub fn shape_node(d: &ColumnDump, addr: u64, rank: &dyn Fn(&[u8]) -> i64, budget: &mut usize) -> Option<J> {
+    if *budget == 0 {
+        return None
+    }
+    *budget -= 1;
+    let (tier, off) = ((addr & 0xff) as u8, addr >> 8);
+    let (data, _) = read_entry(d, tier, off, false)?;
+    let mut o = 0usize;
+    let mut children: Vec<u64> = Vec::new();
+    let mut seps: Vec<i64> = Vec::new();
+    loop {
+        if data.len() < o + 8 {
+            return None
+        }
+        children.push(u64_at(&data, o));
+        o += 8;
+        if children.len() == 9 || o == data.len() {
+            break
+        }
+        if data.len() < o + 9 {
+            return None
+        }
+        let value = u64_at(&data, o);
+        let mut len = data[o + 8] as usize;
+        o += 9;
+        if len == 255 {
+            if data.len() < o + 4 {
+                return None
+            }
+            len = u32::from_le_bytes(data[o..o + 4].try_into().unwrap()) as usize;
+            o += 4;
+        }
+        if data.len() < o + len {
+            return None
+        }
+        let key = &data[o..o + len];
+        o += len;
+        if value == 0 {
+            break
+        }
+        seps.push(rank(key));
+    }
+    let is_leaf = children.iter().all(|c| *c == 0);
+    let mut cs: Vec<J> = Vec::new();
+    if !is_leaf {
+        for i in 0..=seps.len() {
+            match children.get(i) {
+                Some(c) if *c != 0 => cs.push(shape_node(d, *c, rank, budget)?),
+                // a missing child below an inner node: reported as a null child
+                _ => cs.push(J::Null),
+            }
+        }
+        // children stored beyond the last separator are part of the shape too (they must not exist)
+        for c in children.iter().skip(seps.len() + 1) {
+            if *c != 0 {
+                cs.push(json!({"extra_child": *c}));
+            }
+        }
+    }
+    Some(json!({"s": seps, "c": cs}))
+}
+
 /// Abstract dump of column `c` as a trace event.
 pub fn dump_event(db: &Db, u: &Universe, c: usize) -> Option<J> {
     let d = db.verif_dump(c as u8).ok()?;
